@@ -317,7 +317,9 @@ class Run:
                 for op in a["ops"]:
                     if op.get("delay"):
                         CLOCK.advance(op["delay"])
-                    client = self._sync_client(op["service"], kind, ai)
+                    client = self._client_or_event(op, lambda: self._sync_client(op["service"], kind, ai))
+                    if client is None:
+                        continue
                     self.cur_channel[op["id"]] = getattr(self.channels.get(self._last_key), "cid", None)
                     tok = CURRENT_OP.set(op["id"])
                     try:
@@ -327,6 +329,15 @@ class Run:
         finally:
             if kind == "rest":
                 simhttp.uninstall()
+
+    def _client_or_event(self, op, make):
+        """A client / transport that cannot even be constructed is the library's failure: recorded as the op's outcome."""
+        try:
+            return make()
+        except Exception as e:  # noqa
+            _invoke_ev(self, op)
+            self.sim.ev("raise", op=op["id"], stage="client_construction", **exc_info(e))
+            return None
 
     def _run_threads(self, kind):
         """Sync flavour, one REAL thread per actor, all sharing the client(s); interleaving decided by simthreads."""
@@ -340,7 +351,9 @@ class Run:
                 for op in a["ops"]:
                     if op.get("delay"):
                         CLOCK.advance(op["delay"])
-                    client = self._sync_client(op["service"], kind, ai)
+                    client = self._client_or_event(op, lambda: self._sync_client(op["service"], kind, ai))
+                    if client is None:
+                        continue
                     self.cur_channel[op["id"]] = getattr(self.channels.get(self._last_key), "cid", None)
                     tok = CURRENT_OP.set(op["id"])
                     try:
@@ -363,7 +376,9 @@ class Run:
             for op in a["ops"]:
                 if op.get("delay"):
                     await asyncio.sleep(op["delay"])
-                client = self._async_client(op["service"], i)
+                client = self._client_or_event(op, lambda: self._async_client(op["service"], i))
+                if client is None:
+                    continue
                 self.cur_channel[op["id"]] = getattr(self.channels.get(self._last_key), "cid", None)
                 tok = CURRENT_OP.set(op["id"])
                 try:
